@@ -112,6 +112,8 @@ def run(ctx):
     for o in ctx.obs[before:]:
         o.rule = 'C12.R4'
     feasibility_gates(ctx, 'C12.R4')
+    solute_already_present_is_counted(ctx, 'C12.R1')
+    c01.no_bulk_contents_writes(ctx, 'C12.R4')
     # the molarity of the stock is computed from its stored volume: every writer of contents keeps it current
     from .c10 import pairing as _pairing
     _pairing(ctx, 'C12.R3', derived=False)
@@ -285,3 +287,47 @@ def column_provenance(ctx, rule):
                        f"(same unit, other object): the requested concentration is missed",
                    key=f"column {k} of {show(target, 12)} reads the other object")
     ctx.count('column_provenance_rows', rows)
+
+
+def solute_already_present_is_counted(ctx, rule):
+    """The balance of `create_solution_from` starts from what is there: the solute held by the stock AND the solute held
+    by a solvent given as a container (diluting 1 M with 0.1 M gives more than diluting with water).  For both operands a
+    read of `<operand>.contents` under the solute's key must exist - directly or in a helper method that is handed the solute."""
+    plain = ctx.model.plain()
+    fi = plain.func('Container.create_solution_from')
+    params = fi.all_param_names()
+    if 'solute' not in params or 'solvent' not in params or 'source' not in params:
+        raise AnalysisError('Container.create_solution_from: parameters source / solute / solvent not found')
+
+    def keyed_read(node, recv, key):
+        """`recv.contents.get(key, ..)` or `recv.contents[key]` somewhere below node"""
+        for x in ast.walk(node):
+            if isinstance(x, ast.Call) and isinstance(x.func, ast.Attribute) and x.func.attr == 'get' and x.args and \
+                    isinstance(x.args[0], ast.Name) and x.args[0].id == key and isinstance(x.func.value, ast.Attribute) and \
+                    x.func.value.attr == 'contents' and isinstance(x.func.value.value, ast.Name) and x.func.value.value.id == recv:
+                return x
+            if isinstance(x, ast.Subscript) and isinstance(x.slice, ast.Name) and x.slice.id == key and \
+                    isinstance(x.value, ast.Attribute) and x.value.attr == 'contents' and isinstance(x.value.value, ast.Name) and \
+                    x.value.value.id == recv and isinstance(x.ctx, ast.Load):
+                return x
+        return None
+    for operand in ('source', 'solvent'):
+        hit = keyed_read(fi.node, operand, 'solute')
+        how = 'read directly' if hit is not None else None
+        if hit is None:
+            for c in ast.walk(fi.node):
+                if isinstance(c, ast.Call) and isinstance(c.func, ast.Attribute) and isinstance(c.func.value, ast.Name) and \
+                        c.func.value.id == operand and plain.has_func(f"Container.{c.func.attr}"):
+                    h = plain.func(f"Container.{c.func.attr}")
+                    hp = h.param_names()
+                    for i, a_ in enumerate(c.args):
+                        if isinstance(a_, ast.Name) and a_.id == 'solute' and i < len(hp) and keyed_read(h.node, 'self', hp[i]):
+                            hit, how = c, f"through {h.qualname}({hp[i]}=solute)"
+                    for k in c.keywords:
+                        if isinstance(k.value, ast.Name) and k.value.id == 'solute' and k.arg and keyed_read(h.node, 'self', k.arg):
+                            hit, how = c, f"through {h.qualname}({k.arg}=solute)"
+        ctx.ob(rule, ctx.model.func('Container.create_solution_from'), (hit.lineno if hit is not None else fi.node.lineno),
+               f"the solute already held by `{operand}` enters the balance", hit is not None,
+               fact=(how or f"no read of {operand}.contents under the solute's key"),
+               why=f"a {operand} container that already holds solute is treated as if it held none: the new solution misses the requested concentration",
+               key=f"solute held by {operand} not read")
